@@ -110,7 +110,7 @@ register(PropertySpec(
              "symbolic_mode/rule_mode region"),
         Rule("MODE-SET-REQUESTED", modes.rule_mode_set_requested, 9,
              "symbolic_mode(mode=M) sets exactly M for every ambient mode"),
-        Rule("OP-GUARD", modes.rule_op_guard, 10,
+        Rule("OP-GUARD", modes.rule_op_guard, 13,
              "abstract interpretation of each of the 10 operator hooks with in_symbolic_mode() == False: no return is "
              "reachable (the hook raises), through helper calls too"),
         Rule("MODE-BRANCH", modes.rule_mode_branch, 4,
@@ -177,6 +177,10 @@ register(PropertySpec(
         Rule("MEMO-ON-PULL", _lazy("lazy", "rule_memo_on_pull"), 3,
              "(shared with C07) an element pulled from a lazily consumed domain is memoised before it is handed out, so "
              "an evaluation abandoned at that element does not lose it for later evaluations"),
+        Rule("REPLAY-DEDUP", _lazy("cacheidx", "rule_replay_dedup"), 2,
+             "(shared with C05) a second evaluation served from an operand cache returns each row as often as the first one"),
+        Rule("TRAVERSAL-TOTAL", _lazy("history", "rule_traversal_total"), 2,
+             "the recursive reset / invalidation traversals apply themselves to every child on every path (no subtree is skipped)"),
     ],
     explanation="History independence is absence of residue on the shared expression nodes. Decided: where residue is "
                 "written (discovered mechanically from dataclass fields and mutation sites reachable from evaluation "
@@ -215,6 +219,8 @@ register(PropertySpec(
         Rule("PROJECTION-SHARED", the_rules.rule_projection_shared, 3,
              "The.evaluate and An.evaluate turn the evaluated binding into the user value through the same "
              "_process_result_ implementation"),
+        Rule("TRAVERSAL-TOTAL", _lazy("history", "rule_traversal_total"), 2,
+             "the recursive reset / invalidation traversals apply themselves to every child on every path (no subtree is skipped)"),
     ],
     explanation="The three outcomes of `the` are decided by a typestate interpretation of its evaluator over the finite "
                 "state space (result None/solution, solutions consumed 0/1/>=2, _is_false_), exception classes resolved "
@@ -245,6 +251,11 @@ register(PropertySpec(
         Rule("EVAL-SIGNATURE", aggregates.rule_eval_signature, 15,
              "sibling agreement: every override of _evaluate__ accepts the parameters of the abstract declaration "
              "under the names its callers use"),
+        Rule("VALUE-NOT-TESTED", _lazy("values", "rule_value_not_tested"), 8,
+             "the payload of a bound value is tested for truth only where the test decides _is_false_ (condition position), never to "
+             "decide whether to skip, wrap, flatten or accumulate it"),
+        Rule("SCALAR-CLASSIFIER", _lazy("aggregates", "rule_scalar_classifier"), 1,
+             "the collection / scalar classifier shared by flatten and concatenate excludes strings by isinstance (subclasses of str are scalars)"),
     ],
     explanation="Decides: exactly-one-row by counting yields over all CFG paths; and interface agreement among the "
                 "implementations of the evaluation protocol (a concatenate used where the protocol passes "
@@ -273,6 +284,11 @@ register(PropertySpec(
              "every function that wraps the current node in a conclusion selector: saves the node's parent, detaches, "
              "attaches the selector under the saved parent and - when that parent is a binary operator - re-points the "
              "operand slot that held the node (slot chosen by identity, or the other slot excluded by re-targeting)"),
+        Rule("DEDUP-UNKNOWN", _lazy("binding", "rule_dedup_unknown"), 2,
+             "a duplicate-suppression key computed for a row of unknown truth (when_true=None) contains whatever is required "
+             "for a true or for a false row"),
+        Rule("SELECT-PER-ROW", _lazy("ruletree", "rule_select_per_row"), 3,
+             "the conclusions a selector exposes with a row are withdrawn before it produces the next row"),
     ],
     explanation="Attaching a branch rewires the condition tree in place; evaluation follows the left/right fields, not "
                 "the graph edges, so a selector that is attached in the graph but not stored in its parent's operand slot "
@@ -308,6 +324,8 @@ register(PropertySpec(
         Rule("FIELD-EQ", predform.rule_field_eq, 3,
              "properties_to_expression_tree builds one getattr(var, field) == value per given field, in symbolic mode, "
              "conjoined with AND"),
+        Rule("DOMAIN-PRESENCE", predform.rule_domain_presence, 2,
+             "whether a domain was supplied is decided by identity with None, never by the truthiness of the user's object"),
     ],
     explanation="Decides the construction-time clauses: positional binding re-implemented by the library agrees with "
                 "Python's (finite abstract evaluation of the loop over scenario argument lists), the type filter uses "
@@ -373,6 +391,13 @@ register(PropertySpec(
         Rule("CACHE-SWITCH", cacheidx.rule_cache_switch, 6,
              "every result-cache read in an evaluation generator is reachable only when is_caching_enabled() holds "
              "(truth table of its guards), given that writes are suppressed when caching is disabled"),
+        Rule("REPLAY-DEDUP", cacheidx.rule_replay_dedup, 2,
+             "an operator that per row of one operand either evaluates the other operand or replays its rows from a "
+             "cache suppresses duplicate true rows on the replay whenever the evaluating path does"),
+        Rule("TRAVERSAL-TOTAL", _lazy("history", "rule_traversal_total"), 2,
+             "the recursive reset / invalidation traversals apply themselves to every child on every path (no subtree is skipped)"),
+        Rule("REPLAY-CONTEXT", cacheidx.rule_replay_context, 2,
+             "an operand cache is consulted only under the operand truth values for which it is filled"),
     ],
     explanation="Decides that the runtime switch governs reads and writes consistently: the asymmetric state (reads "
                 "unguarded, writes guarded) changes results because an empty lookup marks everything covered. Not "
@@ -476,6 +501,9 @@ register(PropertySpec(
              "the comparison / membership operator is applied to the operand values on every path, None included"),
         Rule("LITERAL-WRAP", _lazy("extra", "rule_literal_wrap"), 1,
              "a falsy literal (0, '', None, False) is a value: Literal.__init__ wraps the datum on every path"),
+        Rule("VALUE-NOT-TESTED", _lazy("values", "rule_value_not_tested"), 8,
+             "the payload of a bound value is tested for truth only where the test decides _is_false_ (condition position), never to "
+             "decide whether to skip, wrap, flatten or accumulate it"),
     ],
     explanation="An effect property: in which positions may a value's truthiness decide whether a row survives. The "
                 "positions are the evaluation call sites; their role is the resolved dataclass field of the receiver "
@@ -517,6 +545,9 @@ register(PropertySpec(
         Rule("PRODUCT", binding.rule_product, 1,
              "the combinator completing unbound selected variables is of class all-combinations (itertools.product / "
              "recursive nested iteration), not lock-step (zip, islice, lone next)"),
+        Rule("DEDUP-UNKNOWN", _lazy("binding", "rule_dedup_unknown"), 2,
+             "a duplicate-suppression key computed for a row of unknown truth (when_true=None) contains whatever is required "
+             "for a true or for a false row"),
     ],
     explanation="An implicit join is a join only if every operator threads the binding it received to its operands and "
                 "keeps everything its operands bound. Both are provenance facts on the evaluation call sites and the "
@@ -549,6 +580,11 @@ register(PropertySpec(
              "each yielded binding extends the child's binding for that element (DomainMapping._evaluate__), and the "
              "query descriptor keeps everything a selected expression bound (parent correlation when the parent is "
              "selected alongside)"),
+        Rule("VALUE-NOT-TESTED", _lazy("values", "rule_value_not_tested"), 8,
+             "the payload of a bound value is tested for truth only where the test decides _is_false_ (condition position), never to "
+             "decide whether to skip, wrap, flatten or accumulate it"),
+        Rule("SCALAR-CLASSIFIER", _lazy("aggregates", "rule_scalar_classifier"), 1,
+             "the collection / scalar classifier shared by flatten and concatenate excludes strings by isinstance (subclasses of str are scalars)"),
     ],
     explanation="UNNEST is 'one row per inner element, all other variables keep the binding that produced it': the "
                 "first half is a path property of one small generator, the second is the BIND-KEEP provenance rule at "
